@@ -380,4 +380,36 @@ theorem dropRow_frame (w : World) (h : IdxInv w) (t r : Nat) (hv : validRow w t 
     · rw [rowAt_dropRow _ _ _ ht hr _ _ (fun x => absurd x e)]
       simp [e]
 
+
+/-! ### node fields are untouched by row movements -/
+
+theorem node_pushRow (w : World) (t : Nat) (row : Row) (cap : Nat) (ht : t < w.tables.size) (t' : Nat) :
+    ((pushRow w t row cap).tableOf t').node = (w.tableOf t').node ∧ (pushRow w t row cap).nodes = w.nodes := by
+  unfold pushRow
+  simp only [tableOf_setIndex]
+  refine ⟨?_, rfl⟩
+  by_cases e : t = t'
+  · subst e; rw [tableOf_setTable_eq _ _ _ ht]
+  · rw [tableOf_setTable_ne _ _ _ _ e]
+
+theorem node_dropRow (w : World) (t r : Nat) (ht : t < w.tables.size) (hr : r < (w.tableOf t).rows.size) (t' : Nat) :
+    ((dropRow w t r).tableOf t').node = (w.tableOf t').node ∧ (dropRow w t r).nodes = w.nodes := by
+  unfold dropRow
+  simp only []
+  rw [removeRowFix_eq _ _ _ ht hr]
+  split
+  · simp only [tableOf_setIndex]
+    refine ⟨?_, rfl⟩
+    by_cases e : t = t'
+    · subst e; rw [tableOf_setTable_eq _ _ _ ht]
+    · rw [tableOf_setTable_ne _ _ _ _ e]
+  · simp only [tableOf_setIndex]
+    refine ⟨?_, rfl⟩
+    by_cases e : t = t'
+    · subst e; rw [tableOf_setTable_eq _ _ _ ht]
+    · rw [tableOf_setTable_ne _ _ _ _ e]
+
+theorem tables_size_pushRow (w : World) (t : Nat) (row : Row) (cap : Nat) : (pushRow w t row cap).tables.size = w.tables.size := by
+  unfold pushRow; simp [setIndex]
+
 end Arche.IndexInv
